@@ -21,7 +21,7 @@ PROPS = [
 def model_check(rep: Report, name: str, depth: int, timeout=900):
     cfg, n, k = CONFIGS[name]
     text = (tlc.SPECS / cfg).read_text().replace("MaxDepth = 5", f"MaxDepth = {depth}")
-    gen = tlc.OUT / "cfg"
+    gen = tlc.OUT / "cfg" / str(__import__("os").getpid())
     gen.mkdir(parents=True, exist_ok=True)
     path = gen / f"RI_{name}_{depth}.cfg"
     path.write_text(text)
